@@ -224,9 +224,11 @@ def valid_case(case):
     if case.get('kind') != 'hist':
         return True
     ini, ops = case.get('init'), case.get('ops')
-    if not ini or not all(isinstance(m, list) and len(m) == 3 for m in ini):
+    if not ini or not all(isinstance(m, list) and len(m) == 3 and isinstance(m[0], bool) and isinstance(m[1], str)
+                          and m[2] in (None, 'nt', 'aa') for m in ini):
         return False
-    return all(isinstance(o, list) and len(o) == 3 and o[0] in OPNAMES and 0 <= o[1] < len(ini) for o in ops)
+    return all(isinstance(o, list) and len(o) == 3 and o[0] in OPNAMES and 0 <= o[1] < len(ini) and isinstance(o[2], str)
+               and (o[0] != 4 or o[2] in ('', 's', 'd')) for o in ops)
 
 
 def impl_hist(case):
